@@ -74,6 +74,20 @@ def version_shapes():
     for nblank in (1, 2, 3):
         out.append(("other:trailing-blank-%d" % nblank, "~Version\nVERS. 2.0 : version\nWRAP. NO : wrap\n" + well20
                     + body.replace("some text\n", "some text\nmore text\n" + "\n" * nblank)))
+    # the WRAP flag in another letter case over properly wrapped data, curve counts that are multiples of the 7 fields a
+    # default 79-character line holds
+    for flag, nc in (("Yes", 14), ("yes", 7), ("YES", 14), ("Yes", 5)):
+        curves = "".join("C%d.U : curve %d\n" % (j, j) for j in range(1, nc))
+        rows = ""
+        for i in range(3):
+            vals = ["%d.5" % (100 * (i + 1) + j) for j in range(nc)]
+            rows += vals[0] + "\n" + "".join(" ".join(vals[k:k + 7]) + "\n" for k in range(1, nc, 7))
+        out.append(("versions:wrap-flag-%s-%d" % (flag, nc), "~Version\nVERS. 2.0 : version\nWRAP. %s : wrap\n" % flag + well20
+                    + "~Curve\nDEPT.M : depth\n" + curves + "~ASCII\n" + rows))
+    # header values with runs of blanks / tabs inside (2, 5 and 9 blanks, a tab)
+    out.append(("versions:value-blank-runs", "~Version\nVERS. 2.0 : version\nWRAP. NO : wrap\n" + well20.replace(
+        "COMP. ACME : company", "COMP. ACME  OIL     AND         GAS\tLTD : company").replace("WELL. W-1 : well", "LOC. 12-34-56     W5M : location\nWELL. W-1 : well")
+        + body.replace("P1.U 3.5 : a parameter", "P1.U 3.5 : a parameter\nRMK. see     run  2 : remark     with  blanks")))
     out.append(("other:inner-blank", "~Version\nVERS. 2.0 : version\nWRAP. NO : wrap\n" + well20 + body.replace("some text\n", "some text\n\n\nmore text\n")))
     return out
 
@@ -122,3 +136,25 @@ def well_version_family():
             lines += ["~Curve", "DEPT.M :", "GR.GAPI :", "~ASCII", "1670.0 10.5", "1665.0 -999.25", "1660.0 30.5"]
             out.append(("wellver-nodescr:%s:%s" % (ver, long_item), "\n".join(lines) + "\n"))
     return out
+
+
+_PRELUDE = {"done": False}
+
+
+def process_prelude():
+    """Once per process, before a check's first point: many OTHER files are read (the small example files incl. the
+    LAS 3.0 samples, texts with unusual line shapes, version shapes) with assorted options.  Reading one file must not
+    change how a later, unrelated text is parsed; a check that calls this explores its points in a process with a
+    reading history instead of a pristine one (the replay of a witness runs the same prelude first)."""
+    if _PRELUDE["done"]:
+        return
+    _PRELUDE["done"] = True
+    import lasio
+    from ..checks import c10
+    texts = list(c10.PURE_TEXTS) + [t for _, t in version_shapes()] + [t for _, t in corpus(200)]
+    for k, t in enumerate(texts):
+        for kw in ({}, {"mnemonic_case": "lower"}, {"ignore_header_errors": True, "read_policy": (), "null_policy": ["NULL", "9999.25"]})[: 1 + (k % 3)]:
+            try:
+                lasio.read(t, **kw)
+            except Exception:
+                pass
